@@ -3,6 +3,7 @@ import OhkamiModel.P.FangsBuild
 import OhkamiModel.P.FangsNodup
 import OhkamiModel.P.FangsBuildND
 import OhkamiModel.P.FangsHit
+import OhkamiModel.P.SearchP
 /-! # C01 — property theorems.
 Spec level: `greedyChain` on the flat route table (statics first, look-ahead over forced static chains).
 Refinement: trie look-up = spec (segment level), byte-level search of the finalized router = trie look-up,
@@ -76,6 +77,13 @@ theorem miss_scoped (cfg : App) (t : BN) (segs : List Bytes) (F G : Nat) (hb : b
     (hno : ∀ r h, (r, h) ∈ flatRoutes cfg → segUnder r segs ≠ some []) :
     (search G (finalize true F t false) segs).2 = none :=
   search_miss cfg t segs F G hb hno
+
+/-- **The loop-shaped search is the proved search**: `searchP`, the formulation of the executable model that follows `Node::search_target` step by
+step and collects the path params, answers — on the finalized router of every application tree, for every path, with fuel for one step per segment —
+with the same fang list and the same handler as `search`, the function `hit_sound_scoped`, `miss_scoped` and `C04.scope` are about -/
+theorem loop_search_is_search (cfg : App) (t : BN) (segs caps : List Bytes) (F G : Nat) (hb : build cfg = some t) (hG : segs.length + 1 ≤ G) :
+    ((searchP G (finalize true F t false) segs caps).1, (searchP G (finalize true F t false) segs caps).2.1) = search G (finalize true F t false) segs :=
+  searchP_is_search cfg t segs caps F G hb hG
 
 /-- the two statements are about something: in the example application of C04 (three nested applications with fangs) `/api/7/u` is a hit of
 handler 2 under two mounts, `/api/7/x` a miss -/
